@@ -139,7 +139,7 @@ def worker(scn):
         with open(os.path.join(root, "COND"), "w") as f:
             f.write(src)
         argv = ["run", "//:e"] + (["-j", "2"] if par else [])
-        r = C.fork_map(lambda _: CLI.run_cli(root, argv, clock=100, env={"CV_PLAN": plan_path}), [0], nproc=1, timeout=120)[0]
+        r = C.fork_map(lambda _: CLI.run_cli(root, argv, clock=100, env={"CV_PLAN": plan_path}), [0], nproc=1, timeout=900)[0]
         out_dir = os.path.join(root, "cond-out", "e.task.100")
         res = {"status": r.get("status") if isinstance(r, dict) else None, "err": str(r)[:300] if not isinstance(r, dict) else ""}
 
@@ -186,7 +186,7 @@ def main(tier):
         rep.drift.append("Tee.tla violates %s" % (mc.violated or "deadlock"))
     n = 60 if tier == "quick" else 1500
     scns = [scenario(rng, k, "seq" if k % 2 == 0 else "par") for k in range(n)]
-    res = C.fork_map(worker, scns, timeout=300)
+    res = C.fork_map(worker, scns, timeout=1200)
     rows = []
     for scn, r in zip(scns, res):
         if r is None or "_error" in r or "_timeout" in r or r.get("status") is None:
@@ -257,6 +257,6 @@ def replay(path):
     with open(path) as f:
         body = json.load(f)
     RC.warm()
-    r = C.fork_map(worker, [body["scenario"]], timeout=300)[0]
+    r = C.fork_map(worker, [body["scenario"]], timeout=1200)[0]
     print({k: (len(v) if isinstance(v, (bytes, bytearray)) else v) for k, v in r.items()})
     return 0
